@@ -326,6 +326,14 @@ class Abs:
                     v.const, v.has_const = cv.value, True
                     v.none = YES if cv.value is None else NO
                     v.truthy = YES if cv.value else NO
+                elif isinstance(cv, ast.Call) and isinstance(cv.func, (ast.Name, ast.Attribute)):
+                    # an instance of a package class built at module level: never None, truthy unless it defines __bool__ / __len__
+                    csym = self.prog.resolve_expr_symbol(owner, cv.func)
+                    if isinstance(csym, ClassInfo) and not csym.is_enum:
+                        v.none = NO
+                        v.type = ('cls', csym.fq)
+                        if not any(self.prog.lookup_method(csym, m) for m in ('__bool__', '__len__')):
+                            v.truthy = YES
             elif isinstance(e, ast.Name) and depth < 4:
                 d = self._single_def(fn, e.id)
                 if d is not None:
